@@ -43,8 +43,9 @@ def programs(tier):
                         mids.append(m2)
                 if tier == "quick" and pre is not st:
                     mids = mids[:1 + len(MID1)]
-                if pre is st:
-                    # a user-defined marker relation (extension point) downstream of the transfer
+                if pre is st and dest != "sq":
+                    # a user-defined marker relation (extension point) downstream of the transfer, in an iteration engine (what
+                    # the SQL engine's conform does with foreign markers is outside the stated properties)
                     mids += [("tag", x), ("sel", ("tag", x), ("gt", meprogs.A, ("lit", "$k2")))]
                 for mid in mids:
                     for lab in finals:
@@ -155,7 +156,8 @@ def run_processed_shape(shape):
                 got, tree = _run_processed(prog, env)
                 got = [{t.qualified_name: v for t, v in r.items()} for r in got]
                 exp = pyeval(prog, {"X": rows}, env.bind, env.tags)
-                bad = None if (got == exp or ("dedup" in ops_of(prog) and common.canon(got) == common.canon(exp))) else f"rows-differ: expected {exp} observed {got} tree {tree}"
+                strict = sem_seq(prog, env).ordered  # the same criterion as the symbolic obligation
+                bad = None if (got == exp or (not strict and common.canon(got) == common.canon(exp))) else f"rows-differ: expected {exp} observed {got} tree {tree}"
             except Exception as e:  # noqa: BLE001
                 bad = f"raises {type(e).__name__}: {e}"[:200]
             if bad is None:
